@@ -224,6 +224,36 @@ pub fn eval_crc_equiv(buf: &[u8]) -> Sigs {
     }
 }
 
+/// the same equivalence when the frame is decoded from a reader: one byte per read call, and
+/// positioned `off` bytes into a longer stream
+pub fn eval_crc_equiv_reader(buf: &[u8], off: usize) -> Sigs {
+    use crate::readercheck::{Scripted, Step};
+    if buf.is_empty() || buf.len() < bits::required_len(buf[0] >> 3) {
+        return vec![];
+    }
+    let class = refdec::class_of(buf);
+    let mut stream = vec![0x5au8; off];
+    stream.extend_from_slice(buf);
+    let script = [Step::Read(1); 0];
+    let r = std::panic::catch_unwind(std::panic::AssertUnwindSafe(|| {
+        let mut s = Scripted::at(&stream, off, &script, 1);
+        adsb_deku::Frame::from_reader(&mut s).ok().map(|f| f.crc)
+    }));
+    match r {
+        Ok(Some(crc)) => {
+            let req = bits::required_len(buf[0] >> 3);
+            let e = bits::refcrc(&buf[..req]);
+            if e != crc {
+                vec![(format!("C03/syndrome_reader/{class}"), format!("checksum of a frame decoded from a reader (1 byte per read, {off} bytes into the stream): bitwise division gives {e:06x}, library reports {crc:06x}"))]
+            } else {
+                vec![]
+            }
+        }
+        Ok(None) => vec![],
+        Err(_) => vec![(format!("C03/panic/{class}"), format!("from_reader panicked: {}", last_panic()))],
+    }
+}
+
 /// expected checksum `target` for a constructed frame
 fn eval_crc_meaning(buf: &[u8], target: u32, what: &str) -> Sigs {
     let class = refdec::class_of(buf);
@@ -264,6 +294,13 @@ pub fn replay_c03(v: &Value) -> Vec<Failure> {
         Some("corrupt") => {
             // base ^ pattern must not be reported with checksum 0
             eval_corrupt(&buf).0
+        }
+        Some("equiv_reader") => {
+            let mut v2 = vec![];
+            for off in [0usize, 7, 14, 3] {
+                v2.extend(eval_crc_equiv_reader(&buf, off));
+            }
+            v2
         }
         Some("meaning") => {
             let t = v.get("target").and_then(|t| t.as_u64()).unwrap_or(0) as u32;
@@ -364,6 +401,11 @@ pub fn run_c03(ctx: &Ctx) -> ! {
             let (b, _) = with_len_mode(&mut rng, f);
             if run_case(st, "equiv", &b, &eval_crc_equiv) {
                 continue;
+            }
+            if st.evaluations % 8 == 0 {
+                let off = [0usize, 7, 14, 3][(st.evaluations / 8 % 4) as usize];
+                run_case(st, "equiv_reader", &b, &|x: &[u8]| eval_crc_equiv_reader(x, off));
+                st.class("equiv via reader");
             }
             if b.len() >= 7 && bits::df_supported(b[0] >> 3) && b.len() >= bits::required_len(b[0] >> 3) {
                 st.nontrivial(&b);
